@@ -96,9 +96,14 @@ func drawC09(t *rapid.T) c09Case {
 	flags := []uint32{0, 0, 1, 1, 2, 3, 0x80, 0xfffffffe, 0x11}
 	kinds := []string{"valid", "valid", "valid", "valid", "unknown-name", "bad-index", "no-groups", "oversize"}
 	loadedNoTsync := map[int]bool{}
+	faulted := false
 	for i := 0; i < n; i++ {
 		var op c09Op
 		switch k := rapid.IntRange(0, 9).Draw(t, "opClass"); {
+		case k == 0 && !faulted && i > 0 && rapid.IntRange(0, 2).Draw(t, "enosys") == 0:
+			// from here on seccomp(2) fails with ENOSYS in the whole process (outer sandbox / old kernel)
+			op = c09Op{Op: "enosys-fault"}
+			faulted = true
 		case k == 0:
 			op = c09Op{Op: "supported", Thread: rapid.IntRange(0, c.Threads-1).Draw(t, "thread")}
 		case k <= 2 && len(loadedNoTsync) >= 1 && c.Threads >= 2:
@@ -164,6 +169,13 @@ func checkC09(raw json.RawMessage) (ev.Result, error) {
 		switch op.Op {
 		case "supported":
 			job.Steps = append(job.Steps, kjob.Step{Op: "supported", Thread: op.Thread})
+		case "enosys-fault":
+			// per thread, because a thread-sync'ed installation would be refused once threads carry filters of their own
+			for i := 1; i < c.Threads; i++ {
+				job.Steps = append(job.Steps, kjob.Step{Op: "outer-enosys-thread", Thread: i})
+			}
+			opAt[len(opAt)-1] = len(job.Steps)
+			job.Steps = append(job.Steps, kjob.Step{Op: "outer-enosys-thread", Thread: 0})
 		default:
 			job.Steps = append(job.Steps, kjob.Step{Op: "load", Thread: op.Thread, Filter: &kjob.FilterSpec{Policy: c09Policy(op), NNP: op.NNP, Flag: op.Flag, HostArch: true}})
 		}
@@ -234,6 +246,7 @@ func checkC09(raw json.RawMessage) (ev.Result, error) {
 	}
 	refusedThenMore := false
 	sawRefusal := false
+	enosys := false
 	for k, op := range c.Ops {
 		cur, err := snap(k + 1)
 		if err != nil {
@@ -243,7 +256,27 @@ func checkC09(raw json.RawMessage) (ev.Result, error) {
 			refusedThenMore = true
 		}
 		switch op.Op {
+		case "enosys-fault":
+			// the injected filter is attached to every thread: nothing to check, the next snapshot is the new baseline
+			if oe := rr.Find(opAt[k], "outer-enosys"); len(oe) != 1 || oe[0].Err != "" {
+				return res, ev.Inconclusivef("could not inject the ENOSYS fault")
+			}
+			enosys = true
+			res.Classes = append(res.Classes, "fault:seccomp-ENOSYS")
 		case "supported":
+			if enosys {
+				// with the system call answering ENOSYS the probe may say either; it must still change nothing
+				se := rr.Find(opAt[k], "supported")
+				if len(se) != 1 {
+					return res, ev.Inconclusivef("supported event missing")
+				}
+				for i := 0; i < c.Threads; i++ {
+					if !c09SnapEqual(prev.st[i], cur.st[i]) || fmt.Sprint(prev.denied[i]) != fmt.Sprint(cur.denied[i]) {
+						return res, fmt.Errorf("Supported() on thread %d changed the state of thread %d: %+v -> %+v", op.Thread, i, prev.st[i], cur.st[i])
+					}
+				}
+				break
+			}
 			se := rr.Find(opAt[k], "supported")
 			if len(se) != 1 {
 				return res, ev.Inconclusivef("supported event missing")
@@ -303,6 +336,8 @@ func checkC09(raw json.RawMessage) (ev.Result, error) {
 				sawRefusal = true
 				why := "other"
 				switch {
+				case enosys:
+					why = "ENOSYS-seccomp-unavailable"
 				case op.Kind == "oversize":
 					why = "EINVAL-oversize-program"
 				case op.Flag&^0x3f != 0:
